@@ -28,6 +28,7 @@ import (
 	"os"
 	"path/filepath"
 	"sort"
+	"strconv"
 	"strings"
 	"time"
 
@@ -1041,6 +1042,7 @@ func scenario(hs []hop, r *rng) (res scenarioResult) {
 	}
 	res.imageA = imageOf(eA.Catalog())
 	catA, apiA := catalogText(eA.Catalog(), false), apiText(cA)
+	entA := entriesText(eA.Catalog())
 	if err := copyFile(f1, f2); err != nil {
 		res.signature, res.what = "C06:harness", "copy failed: "+err.Error()
 		return
@@ -1053,6 +1055,7 @@ func scenario(hs []hop, r *rng) (res scenarioResult) {
 	outA = append(outA, "expire:"+expirePass(eA))
 	catA2, catA2c, apiA2 := catalogText(eA.Catalog(), false), catalogText(eA.Catalog(), true), ""
 	_ = apiA2
+	entA2 := entriesText(eA.Catalog())
 	eA.Close()
 	closedA = true
 
@@ -1071,6 +1074,7 @@ func scenario(hs []hop, r *rng) (res scenarioResult) {
 		return
 	}
 	catB0 := catalogText(eB0.Catalog(), false)
+	entB0 := entriesText(eB0.Catalog())
 	eB0.Close()
 	// the reload point
 	cB, eB, err := openFile(f2)
@@ -1099,6 +1103,16 @@ func scenario(hs []hop, r *rng) (res scenarioResult) {
 		res.signature, res.what, res.diff = "C06:reload-differs", "the reopened engine does not hold the database that was closed (after the continuation)", "catalog "+firstDiff(catA2, catB0)
 		return
 	}
+	// the rebuilt index ENTRIES equal the original ones modulo the renumbering
+	// of the document objects (Coq: ReloadProofs.cat_equiv / C06_load_equivalent)
+	if entB := entriesText(eB.Catalog()); entA != entB {
+		res.signature, res.what, res.diff = "C06:reload-entries-differ", "the indexes rebuilt on load do not hold the entries the stored database had", "entries "+firstDiff(entA, entB)
+		return
+	}
+	if entA2 != entB0 {
+		res.signature, res.what, res.diff = "C06:reload-entries-differ", "the indexes rebuilt on load do not hold the entries the stored database had (after the continuation)", "entries "+firstDiff(entA2, entB0)
+		return
+	}
 	var outB []string
 	for _, p := range probes {
 		outB = append(outB, applyHop(cB, p))
@@ -1118,6 +1132,10 @@ func scenario(hs []hop, r *rng) (res scenarioResult) {
 	}
 	if catB2c := catalogText(eB.Catalog(), true); catA2c != catB2c {
 		res.signature, res.what, res.diff = "C06:continuation-differs", "continuing the history gives a different database after the reload", "catalog "+firstDiff(catA2c, catB2c)
+		return
+	}
+	if entB2 := entriesText(eB.Catalog()); entA2 != entB2 {
+		res.signature, res.what, res.diff = "C06:continuation-differs", "continuing the history gives different index entries after the reload", "entries "+firstDiff(entA2, entB2)
 		return
 	}
 	return
@@ -1141,8 +1159,77 @@ func decHistory(c *sx) []hop {
 	return hs
 }
 
+// entriesText: every index entry of every namespace of a real catalog (read
+// through the VerifEntries hook), each entry rendered through the POSITION of
+// the document it points to in the natural order — so that two catalogs whose
+// documents are different Go objects compare equal exactly when their entry
+// sets are equal modulo that renumbering.  -1 = the entry points to a
+// document that is not in the collection.  Namespaces by key, indexes by name,
+// entries by (position, key text).
+func entriesText(c *lungo.Catalog) string {
+	type nsk struct {
+		h   lungo.Handle
+		key string
+	}
+	var hs []nsk
+	for h := range c.Namespaces {
+		hs = append(hs, nsk{h, h[0] + "." + h[1]})
+	}
+	sort.SliceStable(hs, func(i, j int) bool { return hs[i].key < hs[j].key })
+	var sb strings.Builder
+	sb.WriteString("(ent")
+	for _, k := range hs {
+		coll := c.Namespaces[k.h]
+		pos := map[bsonkit.Doc]int{}
+		for i, d := range coll.Documents.List {
+			pos[d] = i
+		}
+		names := make([]string, 0, len(coll.Indexes))
+		for n := range coll.Indexes {
+			names = append(names, n)
+		}
+		sort.Strings(names)
+		sb.WriteString(" (" + hx(k.h[0]) + " " + hx(k.h[1]) + " (")
+		for i, n := range names {
+			if i > 0 {
+				sb.WriteString(" ")
+			}
+			type pe struct {
+				p int
+				s string
+			}
+			var es []pe
+			for _, e := range coll.Indexes[n].VerifBase().VerifEntries() {
+				var ks []string
+				for _, kv := range e.Keys {
+					ks = append(ks, enc(kv))
+				}
+				p, ok := pos[e.Doc]
+				if !ok {
+					p = -1
+				}
+				es = append(es, pe{p, "(" + strings.Join(ks, " ") + ")"})
+			}
+			sort.SliceStable(es, func(i, j int) bool {
+				if es[i].p != es[j].p {
+					return es[i].p < es[j].p
+				}
+				return es[i].s < es[j].s
+			})
+			sb.WriteString("(" + hx(n))
+			for _, e := range es {
+				sb.WriteString(" (" + strconv.Itoa(e.p) + " " + e.s + ")")
+			}
+			sb.WriteString(")")
+		}
+		sb.WriteString("))")
+	}
+	sb.WriteString(")")
+	return sb.String()
+}
+
 // storeLoad: the real FileStore on a catalog image.
-func storeLoad(nss []nsImage) string {
+func storeLoad(nss []nsImage, withEntries bool) string {
 	cat, err := catalogOf(nss)
 	if err != nil {
 		return "BADGEN"
@@ -1157,7 +1244,12 @@ func storeLoad(nss []nsImage) string {
 	if err != nil {
 		return "ERR"
 	}
-	return "(cat" + sp(encImages(imageOf(back), false)) + ")"
+	out := "(cat" + sp(encImages(imageOf(back), false)) + ")"
+	if withEntries {
+		// the index ENTRIES the real BuildCatalog rebuilt (model: Reload.load)
+		out += " " + entriesText(back)
+	}
+	return out
 }
 
 // ---------------------------------------------------------------------------
@@ -1257,14 +1349,20 @@ func init() {
 			}
 			img := imageOf(e.Catalog())
 			e.Close()
-			return "(reloadimg (img" + sp(encImages(img, true)) + ") " + encHistory("hist", hs) + ")"
+			// reloadix: the model reloads with the REAL index builder and the
+			// rebuilt index entries are compared too; reloadimg: the catalog only
+			tag := "reloadix"
+			if r.chance(1, 4) {
+				tag = "reloadimg"
+			}
+			return "(" + tag + " (img" + sp(encImages(img, true)) + ") " + encHistory("hist", hs) + ")"
 		},
 		run: func(c *sx) string {
-			return storeLoad(decImages(c.list[1].list[1:]))
+			return storeLoad(decImages(c.list[1].list[1:]), c.list[0].atom == "reloadix")
 		},
 		classify: func(c *sx, obs string) ([]string, bool) {
 			img := decImages(c.list[1].list[1:])
-			labels := []string{fmt.Sprintf("namespaces:%d", len(img))}
+			labels := []string{fmt.Sprintf("namespaces:%d", len(img)), "case:" + c.list[0].atom}
 			docs, idx := 0, 0
 			for _, n := range img {
 				docs += len(n.docs)
@@ -1321,7 +1419,7 @@ func init() {
 
 // oracleC06: n counts codec round trips; one reload scenario per 100 of them.
 func oracleC06(r *rng, n int, st *oracleStats) []oracleFailure {
-	st.Rule = "(1) documents from the full value pool: bson.Unmarshal(bson.Marshal(d)) == d for every d the driver API can store (regex options sorted, no empty subtype-2 binary: bsonkit.Transform normalises both on the way in); (2) one history per 100 round trips of 3–24 driver calls (insert/update/replace/delete with all value types, indexes unique × partial × TTL incl. 0 × compound × custom name, drops, 3 databases × 4 collections) on a FileStore engine, Close, Open on the same file: identical catalog (documents in natural order, index definitions, oplog), identical API dump (Find, ListIndexes, local.oplog), identical replies to duplicate probes and a TTL pass afterwards; non-trivial = the reloaded catalog holds at least one document and one secondary index"
+	st.Rule = "(1) documents from the full value pool: bson.Unmarshal(bson.Marshal(d)) == d for every d the driver API can store (regex options sorted, no empty subtype-2 binary: bsonkit.Transform normalises both on the way in); (2) one history per 100 round trips of 3–24 driver calls (insert/update/replace/delete with all value types, indexes unique × partial × TTL incl. 0 × compound × custom name, drops, 3 databases × 4 collections) on a FileStore engine, Close, Open on the same file: identical catalog (documents in natural order, index definitions, oplog), identical API dump (Find, ListIndexes, local.oplog), identical index entries modulo the renumbering of the document objects (every entry rendered through the position of the document it points to), identical replies to duplicate probes and a TTL pass afterwards and identical entries after them; non-trivial = the reloaded catalog holds at least one document and one secondary index"
 	var fails []oracleFailure
 	seenSig := map[string]int{}
 	fail := func(f oracleFailure) {
